@@ -307,9 +307,15 @@ theorem windowComplete_ortho (inp : FindInput) (hG : OrthoGuards inp) : WindowCo
     refine ⟨him.2, him.1, ?_⟩
     have h0 : imagePos inp (g 0) (n 0) = inp.pos.getD (g 0) Vec3.zero := by rw [hocc.home]; exact imagePos_home inp (g 0)
     have hin0 := hG.inside (inp.pos.getD (g 0) Vec3.zero) (getD_mem_of_lt _ _ _ (hocc.idx_lt 0 hG.pat))
+    have hdp : inp.cell.diagPos = true := by
+      unfold Mat3.diagPos
+      have h1 : 0 < inp.cell.a.x := by have := hin0.1; have := hin0.2.1; grind
+      have h2 : 0 < inp.cell.b.y := by have := hin0.2.2.1; have := hin0.2.2.2.1; grind
+      have h3 : 0 < inp.cell.c.z := by have := hin0.2.2.2.2.1; have := hin0.2.2.2.2.2; grind
+      simp [h1, h2, h3]
     unfold nearTest
-    rw [hG.ortho]
-    simp only [if_true]
+    rw [hG.ortho, hdp]
+    simp only [Bool.and_self, if_true]
     have hc := him.1
     rw [h0] at hc
     exact nearOrtho_of_inCube inp.cell _ _ _ _ hc hin0
